@@ -569,6 +569,15 @@ func pointOf(in ssa.Instruction) Point {
 // instruction for which avoid() is true, never takes a cut edge, and reaches an instruction for
 // which goal() is true. Returns the witness (block indices) or nil.
 func findPath(from Point, goal, avoid func(ssa.Instruction) bool, cut edgeSet) []string {
+	return searchPath(from, -1, goal, avoid, cut)
+}
+
+// searchPath is the one path search. Along a path it keeps (a) what is known about the nil-ness of
+// the values that are compared with nil and are phis or feed them (a variable assigned in several
+// branches and tested after they join), and (b) the constants boolean phis take (a flag set in one
+// branch and tested later; the `a || b` of a `case a || b:`): an edge that contradicts either is
+// not followed. firstSucc >= 0 starts the search by taking that successor edge of from.B.
+func searchPath(from Point, firstSucc int, goal, avoid func(ssa.Instruction) bool, cut edgeSet) []string {
 	if from.B == nil {
 		return nil
 	}
@@ -577,6 +586,7 @@ func findPath(from Point, goal, avoid func(ssa.Instruction) bool, cut edgeSet) [
 		b     *ssa.BasicBlock
 		from  int
 		facts map[ssa.Value]bool // value -> known to be non-nil (true) / nil (false) on this path
+		vals  map[*ssa.Phi]bool  // boolean phi -> the constant it holds on this path
 		prev  *item
 	}
 	scan := func(it *item) (hit bool, blocked bool) {
@@ -598,13 +608,16 @@ func findPath(from Point, goal, avoid func(ssa.Instruction) bool, cut edgeSet) [
 		}
 		return w
 	}
-	encode := func(m map[ssa.Value]bool) string {
-		if len(m) == 0 {
+	encode := func(m map[ssa.Value]bool, bv map[*ssa.Phi]bool) string {
+		if len(m) == 0 && len(bv) == 0 {
 			return ""
 		}
 		var ks []string
 		for k, v := range m {
 			ks = append(ks, fmt.Sprintf("%s=%v", k.Name(), v))
+		}
+		for k, v := range bv {
+			ks = append(ks, fmt.Sprintf("%s:%v", k.Name(), v))
 		}
 		sort.Strings(ks)
 		return strings.Join(ks, ",")
@@ -613,7 +626,7 @@ func findPath(from Point, goal, avoid func(ssa.Instruction) bool, cut edgeSet) [
 		b *ssa.BasicBlock
 		f string
 	}
-	start := &item{b: from.B, from: from.I + 1}
+	start := &item{b: from.B, from: from.I + 1, vals: map[*ssa.Phi]bool{}}
 	if len(rel) > 0 {
 		// what the branches that dominate the starting block say about nil-ness
 		start.facts = map[ssa.Value]bool{}
@@ -640,7 +653,40 @@ func findPath(from Point, goal, avoid func(ssa.Instruction) bool, cut edgeSet) [
 			if cut[Edge{it.b, i}] {
 				continue
 			}
+			if it == start && firstSucc >= 0 {
+				if i != firstSucc {
+					continue
+				}
+			} else if ifi != nil {
+				// a branch on a boolean phi whose constant the path knows
+				inner, flip := stripNot(ifi.Cond)
+				if ph, ok := inner.(*ssa.Phi); ok {
+					if v, known := it.vals[ph]; known && (v != flip) != (i == 0) {
+						continue
+					}
+				}
+			}
 			var nf map[ssa.Value]bool
+			pi := -1
+			for k, pr := range s.Preds {
+				if pr == it.b {
+					pi = k
+				}
+			}
+			if ifi != nil {
+				// a nil test of a value that is what it is on every path (a fresh error, a sentinel)
+				contradicted := false
+				for _, f := range impliedFacts(ifi.Cond, i == 0, 0) {
+					if v, nonNil, ok := nilFact(f.v, f.val); ok {
+						if st, known := nilStateOf(v, nil); known && st != nonNil {
+							contradicted = true
+						}
+					}
+				}
+				if contradicted {
+					continue
+				}
+			}
 			if len(rel) > 0 {
 				// an edge that contradicts what the path already knows about a value is infeasible
 				feasible := true
@@ -664,12 +710,6 @@ func findPath(from Point, goal, avoid func(ssa.Instruction) bool, cut edgeSet) [
 					continue
 				}
 				// entering s: its phis take the value of this edge, everything else defined in s is new
-				pi := -1
-				for k, pr := range s.Preds {
-					if pr == it.b {
-						pi = k
-					}
-				}
 				upd := map[ssa.Value]*bool{}
 				for _, in := range s.Instrs {
 					v, isV := in.(ssa.Value)
@@ -692,12 +732,37 @@ func findPath(from Point, goal, avoid func(ssa.Instruction) bool, cut edgeSet) [
 					}
 				}
 			}
-			k := key{s, encode(nf)}
+			// the boolean phis of s
+			nv := map[*ssa.Phi]bool{}
+			for kk, vv := range it.vals {
+				nv[kk] = vv
+			}
+			for _, in := range s.Instrs {
+				ph, ok := in.(*ssa.Phi)
+				if !ok {
+					break
+				}
+				if b, isB := ph.Type().Underlying().(*types.Basic); !isB || b.Kind() != types.Bool {
+					continue
+				}
+				delete(nv, ph)
+				if pi >= 0 {
+					e := ph.Edges[pi]
+					if c, ok := e.(*ssa.Const); ok && c.Value != nil && c.Value.Kind() == constant.Bool {
+						nv[ph] = constant.BoolVal(c.Value)
+					} else if p2, ok := e.(*ssa.Phi); ok {
+						if v, known := it.vals[p2]; known {
+							nv[ph] = v
+						}
+					}
+				}
+			}
+			k := key{s, encode(nf, nv)}
 			if seen[k] {
 				continue
 			}
 			seen[k] = true
-			queue = append(queue, &item{s, 0, nf, it})
+			queue = append(queue, &item{s, 0, nf, nv, it})
 		}
 	}
 	return nil
@@ -736,8 +801,61 @@ func nilStateOf(e ssa.Value, facts map[ssa.Value]bool) (nonNil, ok bool) {
 		if rf.is("fmt", "", "Errorf") || rf.is("errors", "", "New") {
 			return true, true
 		}
+	case *ssa.UnOp:
+		if g, isG := x.X.(*ssa.Global); isG && x.Op == token.MUL && sentinelNonNil(g) {
+			return true, true
+		}
 	}
 	return false, false
+}
+
+// sentinelNonNil: g is a package-level variable that the package initialiser sets once, to a fresh
+// error (errors.New / fmt.Errorf / a composite value), and that nothing else in the program writes
+// or takes the address of — a sentinel such as ErrFileReadLimitExceeded. Reading it gives non-nil.
+var sentinelCache = map[*ssa.Global]bool{}
+
+func sentinelNonNil(g *ssa.Global) bool {
+	if v, ok := sentinelCache[g]; ok {
+		return v
+	}
+	sentinelCache[g] = false
+	if g.Pkg == nil || activeProg == nil || activeProg.SSA != g.Pkg.Prog {
+		delete(sentinelCache, g)
+		return false
+	}
+	fns := append([]*ssa.Function{}, activeProg.allFns...)
+	if ini := g.Pkg.Func("init"); ini != nil {
+		fns = append(fns, withAnon(ini)...)
+	}
+	ok, nInit := true, 0
+	for _, fn := range fns {
+		forEachInstr(fn, func(_ *ssa.BasicBlock, _ int, in ssa.Instruction) {
+			for _, op := range in.Operands(nil) {
+				if *op != ssa.Value(g) {
+					continue
+				}
+				switch x := in.(type) {
+				case *ssa.UnOp:
+					if x.Op != token.MUL {
+						ok = false
+					}
+				case *ssa.Store:
+					if x.Addr != ssa.Value(g) || fn.Name() != "init" || fn.Pkg != g.Pkg {
+						ok = false
+						return
+					}
+					nInit++
+					if nn, known := nilStateOf(x.Val, nil); !known || !nn {
+						ok = false
+					}
+				default:
+					ok = false
+				}
+			}
+		})
+	}
+	sentinelCache[g] = ok && nInit == 1
+	return sentinelCache[g]
 }
 
 // nilRelevant: the values of fn whose nil-ness a path search tracks — those compared with nil that are
@@ -1031,4 +1149,137 @@ func retVal(ret *ssa.Return, idx int) ssa.Value {
 		}
 	}
 	return v
+}
+
+// pathOutcome: one acyclic entry-to-return path of a small function: what is known about the
+// abstract guards on it (guard index -> holds) and the last constant written by the tracked stores
+// (set=false when the path writes none).
+type pathOutcome struct {
+	facts  map[int]bool
+	last   int64
+	set    bool
+	opaque bool // the last tracked store wrote something that is not a constant on this path
+	blocks []int
+}
+
+// enumOutcomes walks every acyclic path from the entry to a return (at most limit of them; ok=false
+// beyond that or when the function has a loop on the way). Branches are followed with the guards'
+// truth recorded from impliedFacts; a path on which one guard would have to both hold and fail is
+// infeasible and dropped. Stored values that are phis of constants are resolved by the path taken.
+func enumOutcomes(fn *ssa.Function, tracked func(ssa.Instruction) (ssa.Value, bool), guards []CondPred, limit int) (outs []pathOutcome, ok bool) {
+	if len(fn.Blocks) == 0 {
+		return nil, false
+	}
+	ok = true
+	type state struct {
+		facts  map[int]bool
+		env    map[*ssa.Phi]ssa.Value
+		last   int64
+		set    bool
+		opaque bool
+		onPath map[*ssa.BasicBlock]bool
+		blocks []int
+	}
+	var walk func(b, from *ssa.BasicBlock, st state)
+	walk = func(b, from *ssa.BasicBlock, st state) {
+		if !ok {
+			return
+		}
+		if st.onPath[b] {
+			return // a cycle: iterations add no new last-store/guard combination for loop-free stores
+		}
+		onPath := map[*ssa.BasicBlock]bool{b: true}
+		for k := range st.onPath {
+			onPath[k] = true
+		}
+		st.onPath = onPath
+		st.blocks = append(append([]int{}, st.blocks...), b.Index)
+		env := map[*ssa.Phi]ssa.Value{}
+		for k, v := range st.env {
+			env[k] = v
+		}
+		st.env = env
+		resolve := func(v ssa.Value) ssa.Value {
+			for i := 0; i < 8; i++ {
+				ph, isPhi := v.(*ssa.Phi)
+				if !isPhi {
+					return v
+				}
+				nv, known := st.env[ph]
+				if !known {
+					return v
+				}
+				v = nv
+			}
+			return v
+		}
+		for _, in := range b.Instrs {
+			switch x := in.(type) {
+			case *ssa.Phi:
+				if from != nil {
+					for i, pr := range b.Preds {
+						if pr == from {
+							st.env[x] = resolve(x.Edges[i])
+						}
+					}
+				}
+			case *ssa.Return:
+				if len(outs) >= limit {
+					ok = false
+					return
+				}
+				outs = append(outs, pathOutcome{st.facts, st.last, st.set, st.opaque, st.blocks})
+				return
+			default:
+				if v, is := tracked(in); is {
+					if k, isC := constInt(resolve(v)); isC {
+						st.last, st.set, st.opaque = k, true, false
+					} else {
+						st.set, st.opaque = true, true
+					}
+				}
+			}
+		}
+		ifi := blockIf(b)
+		if ifi == nil {
+			for _, s := range b.Succs {
+				walk(s, b, st)
+			}
+			return
+		}
+		for k, s := range b.Succs {
+			facts := map[int]bool{}
+			for g, v := range st.facts {
+				facts[g] = v
+			}
+			feasible := true
+			cond := resolve(ifi.Cond)
+			if c, isC := cond.(*ssa.Const); isC && c.Value != nil && c.Value.Kind() == constant.Bool {
+				if constant.BoolVal(c.Value) != (k == 0) {
+					continue
+				}
+			}
+			for _, f := range impliedFacts(ifi.Cond, k == 0, 0) {
+				for gi, g := range guards {
+					m, pos := g(f.v)
+					if !m {
+						continue
+					}
+					holds := pos == f.val
+					if old, seen := facts[gi]; seen && old != holds {
+						feasible = false
+					}
+					facts[gi] = holds
+				}
+			}
+			if !feasible {
+				continue
+			}
+			st2 := st
+			st2.facts = facts
+			walk(s, b, st2)
+		}
+	}
+	walk(fn.Blocks[0], nil, state{facts: map[int]bool{}, env: map[*ssa.Phi]ssa.Value{}})
+	return outs, ok
 }
